@@ -20,6 +20,23 @@ gfapy.Gfa(text, vlevel=3) + validate() and by the independent recogniser of _mis
 equivalent document; records without counterpart (F, G, U, custom records, internal edges, trace-aligned edges)
 are absent from the whole-graph conversion and their line.to_gfa1() raises a gfapy.Error.
 
+NAMES WITHOUT A GFA1 SPELLING.  A GFA2 identifier is any printable string, a GFA1 segment name does not start with `*`
+or `=` and holds no `+,` / `-,` (the segment list of a P line is split at its commas: a path over `x+,y` written
+`x+,y+,z+` visits x, y and z).  Segments with such a name (NO_GFA1_NAMES; some are spelled with the names of other
+segments of the same graph, so that the misreading is a valid walk), their edges and the ordered groups that visit
+them - one-segment, explicit, implicit, reversed, circular, with `*` and with CIGAR edges - are generated next to
+unusual names that both versions accept (ODD_NAMES: full comparison as for any other name).  They are records
+without a counterpart (unnameable()):
+  * line level: S.to_gfa1()/to_gfa1_s(), E.…, O.… must raise a gfapy.Error      signature unnameable-translated[S|E|O]
+  * whole graph: Gfa.to_gfa1_s()/to_gfa1() may raise; if it returns a text, no S/L/C line may name such a segment and
+    no P line may carry the name of such a group                     signature unnameable-translated[Gfa:S|L|C|P]
+    (a text with such lines is not offered to the validity check again: it is already reported);
+    everything else in the text is compared with the source as usual.
+  On the unmodified tree the S and E conversions (to_gfa1_s() at every level, to_gfa1() at vlevel 0, hence also
+  Gfa.to_gfa1_s()) write the name unchecked: signatures unnameable-translated[S], [E], [Gfa:S], [Gfa:L], [Gfa:C] are
+  a finding of the unmodified tree; [O] and [Gfa:P] are refused there (Ordered._to_gfa1_a checks each captured
+  segment's name).
+
 NOT CHECKED
   * links whose overlap covers a whole segment (reflen >= |from| or querylen >= |to|): in GFA2 they look like
     containments (DESIGN §7, note after the table) -- such links, and paths through them, are skipped;
@@ -46,8 +63,11 @@ RULE = ("exhaustive: every single-link GFA1 graph over 4 orientation pairs x 14 
         "classes 0/inner/flush right x 4 CIGARs, every single-edge GFA2 graph over 4 orientation pairs x both role orders x "
         "{dovetail, containment of sid2, containment of sid1, internal} x 8 alignments (CIGAR, `*`, trace), each with linear / "
         "circular / one-segment paths; random: graphs of 2-4 segments (lengths 4-12) with 1-5 edges, parallel edges, self-links, "
-        "paths walking 1-3 edges in either direction, F/G/U/custom records, tags. Non-trivial: the graph has an edge whose "
-        "alignment is asymmetric (not equal to its own complement) or a path.")
+        "paths walking 1-3 edges in either direction, F/G/U/custom records, tags; segment names that are unusual in both "
+        "versions, and GFA2 identifiers without a GFA1 spelling (leading `*`/`=`, `+,`/`-,` inside) on segments, under edges "
+        "and under ordered groups (exhaustive: 10 names x {`*`, CIGAR} x 7 group shapes; random: 15% of the cases): "
+        "refused or dropped, never written. Non-trivial: the graph has an edge whose "
+        "alignment is asymmetric (not equal to its own complement), a path, or a segment without a GFA1 name.")
 
 INV = {"+": "-", "-": "+"}
 
@@ -247,6 +267,18 @@ def walk2(o, D2, lens):
 
 
 # ---------------------------------------------------------------------------------------------------- generators
+# segment names: the plain ones, unusual ones that are names in both versions, and GFA2 identifiers that have NO GFA1
+# spelling (a GFA1 name does not start with `*` or `=` and holds no `+,` / `-,`, because the segment list of a P line
+# is split at the commas that follow an orientation); `A+,B` and `B-,C+,D` are built from other names of the pool, so
+# that a list which spells them out reads as a walk over *other* segments of the same graph
+ODD_NAMES = ["x+y", "s-", "a=b", "7"]
+NO_GFA1_NAMES = ["A+,B", "B-,C+,D", "x+,y", "a-,b", "*x", "=y"]
+
+
+def name_pool(rng):
+    return NAMES + rng.sample(ODD_NAMES, 1) + rng.sample(NO_GFA1_NAMES, 2) + (["A+,B"] if rng.chance(0.5) else [])
+
+
 CIGS = ["1M", "3M", "1M1I", "1M1D", "2M1D1M", "1M1I2M", "1I2M", "2M1D", "1M2I1D1M", "1M1P2M", "2D1M", "1M1I1D", "3M1I", "1D1M1I"]
 NAMES = ["A", "B", "C", "D"]
 
@@ -351,6 +383,19 @@ def _ex():
                             L += ["G\tg1\tA+\tB-\t10\t*", "F\tA\tread+\t0\t%d$\t0\t4\t*" % n1, "U\tu1\tA B", "X\tcustom\trecord"]
                         X.append({"dir": "2to1", "lines": L})
     X.append({"dir": "2to1", "lines": [seg2("A", 5, True), "O\tp\tA+"]})
+    # segments whose name is unusual / has no GFA1 spelling, alone, under an edge, and visited by an ordered group:
+    # one-segment group, explicit and implicit two-segment group over a `*` or CIGAR edge, circular group
+    for ni, n in enumerate(ODD_NAMES + NO_GFA1_NAMES):
+        S = [seg2(n, 12, ni % 2 == 0), seg2("A", 8, True), seg2("B", 8, False), seg2("C", 6, True), seg2("D", 6, True)]
+        for al in ("*", "2M"):
+            # one edge per pair of segments: n->C, C->D, D->n (a cycle), A->B, B->C
+            E = ["E\te1\t%s+\tC+\t10\t12$\t0\t2\t%s" % (n, al), "E\te2\tD+\t%s+\t4\t6$\t0\t2\t%s" % (n, al),
+                 "E\te3\tA+\tB+\t6\t8$\t0\t2\t%s" % al, "E\te4\tB+\tC+\t6\t8$\t0\t2\t%s" % al,
+                 "E\te6\tC+\tD+\t4\t6$\t0\t2\t%s" % al]
+            X.append({"dir": "2to1", "lines": S + E[:1]})
+            for items in ("%s+" % n, "%s+ e1+ C+" % n, "%s+ C+" % n, "C- e1- %s-" % n, "%s+ e1+ C+ e6+ D+ e2+ %s+" % (n, n),
+                          "%s+ C+ D+" % n, "A+ e3+ B+ e4+ C+ e6+ D+ e2+ %s+" % n):
+                X.append({"dir": "2to1", "lines": S + E + ["O\tp\t" + items]})
     X.append({"dir": "1to2", "lines": ["H\tVN:Z:1.0\txx:i:1", seg1("A", 5, True), "# comment"]})
     X.append({"dir": "2to1", "lines": ["H\tVN:Z:2.0\tTS:i:5", seg2("A", 5, True), "# comment"]})
     return X
@@ -378,8 +423,8 @@ def rnd_tags(rng):
     return rng.pick(["", "", "\txx:i:5", "\tab:Z:a b\tj1:J:[1, 2]", "\tnb:B:c,-1,2"])
 
 
-def gen_gfa1(rng):
-    segs = rng.sample(NAMES, rng.pick([2, 3, 4]))
+def gen_gfa1(rng, names=NAMES):
+    segs = rng.sample(names, rng.pick([2, 3, 4]))
     lens = {s: rng.pick([6, 8, 10, 12]) for s in segs}
     L = ["H\tVN:Z:1.0"] if rng.chance(0.3) else []
     for s in segs:
@@ -443,8 +488,8 @@ def gen_gfa1(rng):
     return L
 
 
-def gen_gfa2(rng):
-    segs = rng.sample(NAMES, rng.pick([2, 3, 4]))
+def gen_gfa2(rng, names=NAMES):
+    segs = rng.sample(names, rng.pick([2, 3, 4]))
     lens = {s: rng.pick([6, 8, 10, 12]) for s in segs}
     L = ["H\tVN:Z:2.0"] if rng.chance(0.3) else []
     for s in segs:
@@ -514,9 +559,15 @@ def gen_gfa2(rng):
 
 
 def gen_case(rng, tier, i):
-    if rng.chance(0.55):
+    k = rng.random()
+    if k < 0.5:
         return {"dir": "1to2", "lines": gen_gfa1(rng), "vlevel": rng.pick([0, 1, 1, 2, 3])}
-    return {"dir": "2to1", "lines": gen_gfa2(rng), "vlevel": rng.pick([0, 1, 1, 2, 3])}
+    if k < 0.55:
+        return {"dir": "1to2", "lines": gen_gfa1(rng, NAMES + ODD_NAMES), "vlevel": rng.pick([0, 1, 1, 2, 3])}
+    if k < 0.85:
+        return {"dir": "2to1", "lines": gen_gfa2(rng), "vlevel": rng.pick([0, 1, 1, 2, 3])}
+    # GFA2 graphs some of whose segment names are unusual or have no GFA1 spelling
+    return {"dir": "2to1", "lines": gen_gfa2(rng, name_pool(rng)), "vlevel": rng.pick([0, 1, 1, 2, 3])}
 
 
 def asym(c):
@@ -537,6 +588,8 @@ def nontrivial(case):
             return True
         if f[0] == "E" and asym(f[8]):
             return True
+        if f[0] == "S" and case["dir"] == "2to1" and not M.name1_ok(f[1]):
+            return True
     return False
 
 
@@ -551,6 +604,12 @@ def tags(case):
         if f[0] == "P":
             n, k = len(f[2].split(",")), (0 if f[3] == "*" else len(f[3].split(",")))
             t.append("P:" + ("one" if n == 1 and k == 0 else "circular" if n == k else "linear"))
+        if f[0] == "S" and f[1] not in NAMES:
+            t.append("name:" + ("odd" if M.name1_ok(f[1]) else "no-gfa1"))
+    if case["dir"] == "2to1":
+        bad = unnameable(parse2(case["lines"]))
+        if bad["O"]:
+            t.append("O:over-no-gfa1-name")
     return sorted(set(t))
 
 
@@ -742,7 +801,8 @@ def oracle(case):
     lens = {n: s["len"] for n, s in Dsrc["S"].items()}
     pairs = [frozenset((e["s1"], e["s2"])) for e in Dsrc["E"]] if d == "2to1" else []
     parallel = len(set(pairs)) != len(pairs)
-    has_orphans = d == "2to1" and (parallel or Dsrc["F"] or Dsrc["G"] or Dsrc["U"] or Dsrc["other"] or
+    bad = unnameable(Dsrc) if d == "2to1" else {"S": set(), "E": set(), "O": set()}
+    has_orphans = d == "2to1" and (parallel or Dsrc["F"] or Dsrc["G"] or Dsrc["U"] or Dsrc["other"] or bad["S"] or
                                    any(e_kind(e, lens) == "I" or isinstance(aln_of(e["aln"]), tuple) for e in Dsrc["E"]))
     if parallel:
         return []          # two GFA2 edges between the same pair of segments: GFA1 has one link per pair of ends -- not judged
@@ -756,6 +816,13 @@ def oracle(case):
             texts.append((how, T))
     for how, T in texts:
         tl = [l for l in T.split("\n") if l != ""]
+        if bad["S"]:
+            # what has no GFA1 spelling must be absent; the rest is compared as usual
+            tl_rest, nbad = check_unnameable_absent(F, Dsrc, bad, tl, how)
+            if nbad == 0:
+                check_valid(F, "\n".join(tl), tv, how)
+            check_2to1(F, without_unnameable(Dsrc, bad), lens, tl_rest, how)
+            continue
         check_valid(F, "\n".join(tl), tv, how)
         if d == "1to2":
             check_1to2(F, Dsrc, lens, tl, how)
@@ -792,18 +859,77 @@ def oracle(case):
                 e = [x for x in Dsrc["E"] if x["text"] == str(l)]
                 if e and e_kind(e[0], lens) == "I":
                     orphan = True
-            if not orphan:
+            # a segment whose name has no GFA1 spelling, an edge of such a segment, an ordered group that visits one
+            f = str(l).split("\t")
+            noname = (rt == "S" and f[1] in bad["S"]) or (rt == "E" and (f[2][:-1] in bad["S"] or f[3][:-1] in bad["S"])) or \
+                     (rt == "O" and group_is_unnameable(f[2].split(" "), bad))
+            if not (orphan or noname):
                 continue
             for m in ("to_gfa1", "to_gfa1_s"):
                 st, r = conv(F, "%s-line.%s()" % (rt, m), getattr(l, m))
                 if st == "ok" and str(r) != "":
-                    F.append("orphan-translated[%s]: %s() of %r gives %r instead of an error" % (rt, m, str(l), str(r)))
+                    if noname:
+                        F.append("unnameable-translated[%s]: %s() of %r gives %r instead of an error (segment name%s %s: no GFA1 spelling)"
+                                 % (rt, m, str(l), str(r), "s" if len(bad["S"]) > 1 else "", ", ".join(repr(x) for x in sorted(bad["S"]))))
+                    else:
+                        F.append("orphan-translated[%s]: %s() of %r gives %r instead of an error" % (rt, m, str(l), str(r)))
     seen = set(); out = []
     for f in F:
         s = signature(case, f)
         if s not in seen:
             seen.add(s); out.append(f)
     return out
+
+
+def unnameable(D2):
+    """what has no GFA1 counterpart because of a *name*: segments whose identifier is not a GFA1 segment name (it starts
+    with `*` or `=`, or contains `+,` / `-,`), the edges of such segments, the ordered groups that visit one (directly or
+    through such an edge) -> {"S": names, "E": edge ids / texts, "O": group names}"""
+    bs = {n for n in D2["S"] if not M.name1_ok(n)}
+    be = {(e["id"] or e["text"]) for e in D2["E"] if e["s1"] in bs or e["s2"] in bs}
+    bad = {"S": bs, "E": be, "O": set()}
+    bad["O"] = {o["name"] for o in D2["O"] if group_is_unnameable(["%s%s" % it for it in o["items"]], bad)}
+    return bad
+
+
+def group_is_unnameable(items, bad):
+    return any(it[:-1] in bad["S"] or it[:-1] in bad["E"] for it in items)
+
+
+def without_unnameable(D2, bad):
+    R = dict(D2)
+    R["S"] = {n: s for n, s in D2["S"].items() if n not in bad["S"]}
+    R["E"] = [e for e in D2["E"] if (e["id"] or e["text"]) not in bad["E"]]
+    R["O"] = [o for o in D2["O"] if o["name"] not in bad["O"]]
+    return R
+
+
+def check_unnameable_absent(F, D2, bad, tl, how):
+    """whole-graph conversion of a GFA2 graph in which some segment names have no GFA1 spelling: the records that
+    depend on such a name are dropped.  A GFA1 reader splits the segment list of a P line at its commas, so a path
+    written for a group over `x+,y` would visit x and y: the group's name must not come out as a P line at all.
+    -> (the converted lines without the offending ones, number of offending lines)"""
+    rest, n = [], 0
+    for ln in tl:
+        f = ln.split("\t")
+        hit = None
+        if f[0] == "S" and len(f) > 1 and f[1] in bad["S"]:
+            hit = "S"
+        elif f[0] in ("L", "C") and any(x in bad["S"] for x in f[1:]):
+            hit = f[0]        # any field: at vlevel 0 the whole S line can end up inside the from/to field
+        elif f[0] == "P" and len(f) > 1 and f[1] in bad["O"]:
+            hit = "P"
+        if hit:
+            n += 1
+            src = ""
+            if hit == "P":
+                src = "; source group %r" % ["O\t%s\t%s" % (o["name"], " ".join(a + b for a, b in o["items"]))
+                                             for o in D2["O"] if o["name"] == f[1]]
+            F.append("unnameable-translated[Gfa:%s]: %s writes %r although %s no GFA1 spelling%s"
+                     % (hit, how, ln, " and ".join(repr(x) for x in sorted(bad["S"])) + (" have" if len(bad["S"]) > 1 else " has"), src))
+        else:
+            rest.append(ln)
+    return rest, n
 
 
 def check_1to2(F, D1, lens, tl, how):
